@@ -38,6 +38,9 @@ type c06Script struct {
 	rerr    error
 	onWrite func()
 	writes  int
+	// reqLost: every Write is accepted without error but nothing ever reaches the server (the
+	// connection died after the kernel took the bytes); the Read that follows fails
+	reqLost bool
 }
 
 func (c *c06Script) Write(b []byte) (int, error) {
@@ -57,6 +60,9 @@ func (c *c06Script) Write(b []byte) (int, error) {
 }
 func (c *c06Script) Read(b []byte) (int, error) {
 	if c.failed {
+		return 0, errC06Read
+	}
+	if c.reqLost {
 		return 0, errC06Read
 	}
 	if !c.served {
@@ -133,6 +139,7 @@ func c06HistW(c *Ctx) {
 		out = append(out, c06State(&ck, false, &sk))
 		n := 1 + r.Intn(7)
 		faulty, rekeys := false, 0
+		reqLost := false // the history contains a fault the model has no constructor for: oracle only
 		desync := ""
 		input := func() map[string]interface{} {
 			return map[string]interface{}{"stack": stack, "history": c06Toks(evs)}
@@ -150,6 +157,8 @@ func c06HistW(c *Ctx) {
 				if r.Chance(50) {
 					sc.lossAt = r.Intn(30)
 				}
+			case f < 33:
+				sc.reqLost = true
 			}
 			wantRekey := r.Chance(45)
 			if !wantRekey {
@@ -180,6 +189,9 @@ func c06HistW(c *Ctx) {
 				return
 			}
 			switch {
+			case sc.reqLost:
+				ev.Fault = 3
+				reqLost = true
 			case sc.failed:
 				ev.Fault = 1
 			case !sc.served || srvErr != nil:
@@ -215,7 +227,7 @@ func c06HistW(c *Ctx) {
 			_, pending := c2.VerifC06KeysNext(d.C)
 			st := c06State(&ck, pending, &sk)
 			seen := d.Seen()
-			if ev.Fault != 1 && !crypt {
+			if ev.Fault != 1 && ev.Fault != 3 && !crypt {
 				st += " S:" + hx(srvSaw)
 				if !bytes.Equal(srvSaw, ev.Data) && desync == "" {
 					desync = "payload:" + c06Classify(evs, len(evs)-2)
@@ -243,8 +255,12 @@ func c06HistW(c *Ctx) {
 			}
 			c.Count("histw:fault=" + c06FaultTok[ev.Fault])
 		}
-		pt, dt := keys.tables(false, 0)
-		c.Op("hist obs=1 srv="+hex.EncodeToString(keys.priv[0])+" pub="+pt+" dh="+dt+" "+strings.Join(c06Toks(evs), " "), strings.Join(out, " | "))
+		if reqLost {
+			c.Count("histw:with-request-lost(oracle-only)")
+		} else {
+			pt, dt := keys.tables(false, 0)
+			c.Op("hist obs=1 srv="+hex.EncodeToString(keys.priv[0])+" pub="+pt+" dh="+dt+" "+strings.Join(c06Toks(evs), " "), strings.Join(out, " | "))
+		}
 		if desync != "" {
 			c.Fail("desync", desync, "client and server disagree (secret or delivered payload) on stack "+stack, input())
 			c.Count("histw:desync")
@@ -273,7 +289,8 @@ func c06PickWait(c *Ctx) {
 		d.Arm(nil, nil)
 		abandoned, rekey := i%2 == 0, i%4 < 2 || r.Bool()
 		before := c2.VerifC06Keys(d.C)
-		pending, queued := d.PickWait(abandoned, rekey)
+		pending, queued, crypt := d.PickWait(abandoned, rekey)
+		c.Op(fmt.Sprintf("pickwait %d %d 0", b2i(abandoned), b2i(rekey)), fmt.Sprintf("pending=%d queued=%d crypt=%d", b2i(pending), queued, b2i(crypt)))
 		in := map[string]interface{}{"abandoned": abandoned, "rekey_rolled": rekey, "keypair_queued": pending, "packets_queued": queued}
 		switch {
 		case abandoned && (pending || queued != 0):
@@ -292,3 +309,10 @@ func c06PickWait(c *Ctx) {
 	})
 }
 
+
+func b2i(b bool) int {
+	if b {
+		return 1
+	}
+	return 0
+}
